@@ -369,6 +369,14 @@ def main_wrapper(prop, fn):
     ctx = Ctx(prop, args.tier, seed)
     ctx.replay = args.replay
     ctx.selftest = args.selftest
+    if args.replay:
+        # a replay file holds the concrete failing input / history of an earlier violation; checks without a
+        # dedicated single-case mode re-run the tier that found it (same seed => same cases) after showing it
+        try:
+            with open(args.replay) as fh:
+                log("replaying %s:\n%s" % (args.replay, fh.read()[:3000]))
+        except OSError as e:
+            log("cannot read replay file: %s" % e)
     try:
         rc = fn(ctx)
     except NoVerdict as e:
